@@ -36,18 +36,22 @@ struct Shared
 	std::atomic<uint64_t> doneLate[MAXEV]; // tick after the processing call that dispatched it returned
 	std::atomic<int> dispatched, enqueued;
 	std::atomic<bool> stop, aborting, pollStop;
-	std::atomic<long> polls;
+	std::atomic<long> polls, listenerFailures;
 	std::atomic<int> enqLeft;
 	std::vector<Interval> waits[MAXTHREADS];
 	std::vector<Interval> dqns[MAXTHREADS];
+	std::vector<Interval> procs[MAXTHREADS]; // processing calls (they raise the "in dispatch" counter even when they find nothing)
 	std::vector<int> batch[MAXTHREADS];
 	void reset() {
 		for(int i = 0; i < MAXEV; ++i) { state[i].store(0, std::memory_order_relaxed); enqStart[i].store(0, std::memory_order_relaxed); doneLate[i].store(~0ULL, std::memory_order_relaxed); }
-		dispatched = 0; enqueued = 0; stop = false; aborting = false; pollStop = false; polls = 0; enqLeft = 0;
-		for(int i = 0; i < MAXTHREADS; ++i) { waits[i].clear(); dqns[i].clear(); batch[i].clear(); }
+		dispatched = 0; enqueued = 0; stop = false; aborting = false; pollStop = false; polls = 0; listenerFailures = 0; enqLeft = 0;
+		for(int i = 0; i < MAXTHREADS; ++i) { waits[i].clear(); dqns[i].clear(); procs[i].clear(); batch[i].clear(); }
 	}
 };
 static Shared * S = new Shared();
+
+struct ListenerFailure {};
+static thread_local bool tThrowOk = false;
 
 struct WSink : CallbackSink
 {
@@ -58,6 +62,8 @@ struct WSink : CallbackSink
 		if(! S->state[eid].compare_exchange_strong(expect, 2, std::memory_order_relaxed)) { violation("dispatch:event-dispatched-twice-or-never-enqueued", "event " + num(eid) + " state " + num(expect)); return; }
 		S->dispatched.fetch_add(1, std::memory_order_relaxed);
 		S->batch[tls().tid % MAXTHREADS].push_back((int)eid);
+		// a listener that fails: only inside processOne (one event per call, so nothing else is discarded with it)
+		if(tThrowOk && tls().rng.chance(1, 4)) { tThrowOk = false; throw ListenerFailure(); }
 		perturb("listener.body");
 	}
 };
@@ -71,6 +77,7 @@ struct Scenario
 	uint32_t plan[3][12]; // per step: low 2 bits = DisableQueueNotify nesting depth (0..3), next 3 bits = events (1..4 -> +1), next bits = pause
 	bool drainAll;
 	bool enqueuerProcesses;
+	bool throwing;        // listeners fail now and then inside processOne
 	int poller;          // 0 none, 1 a thread keeps calling processIf with a predicate that declines everything, 2 processUntil that stops at once
 };
 
@@ -104,8 +111,17 @@ struct Runner
 		std::vector<int> & b = S->batch[tid % MAXTHREADS];
 		for(;;) {
 			b.clear();
-			const bool r = tls().rng.chance(1, 2) ? q.processOne() : q.process();
+			bool r;
+			Interval pi; pi.kind = 0; pi.result = true; pi.elapsedUs = 0; pi.wantUs = 0; pi.a = tick();
+			if(tls().rng.chance(1, 2)) {
+				tThrowOk = sc.throwing;
+				try { r = q.processOne(); }
+				catch(const ListenerFailure &) { r = true; S->listenerFailures.fetch_add(1, std::memory_order_relaxed); } // the exception passes through processOne; the queue must be as idle afterwards as after a normal return
+				tThrowOk = false;
+			}
+			else r = q.process();
 			const uint64_t t = tick();
+			pi.b = t; S->procs[tid % MAXTHREADS].push_back(pi);
 			for(size_t i = 0; i < b.size(); ++i) S->doneLate[b[i]].store(t, std::memory_order_relaxed);
 			if(! r) break;
 			if(! sc.drainAll) break;
@@ -186,7 +202,7 @@ struct Runner
 				scopes(tid, depth, nEvents, nextEid, depth ? pauseUs : 0);
 				if((p >> 16) & 1) std::this_thread::sleep_for(std::chrono::microseconds((p >> 17) % 800));
 				// a processing call made by a thread that is NOT a waiter: an enqueue that happens meanwhile must still wake a waiter
-				if(sc.enqueuerProcesses && ((p >> 28) & 3) == 0) { std::vector<int> & b = S->batch[tid % MAXTHREADS]; b.clear(); q.process(); const uint64_t t = tick(); for(size_t i = 0; i < b.size(); ++i) S->doneLate[b[i]].store(t, std::memory_order_relaxed); }
+				if(sc.enqueuerProcesses && ((p >> 28) & 3) == 0) { std::vector<int> & b = S->batch[tid % MAXTHREADS]; b.clear(); Interval pi; pi.kind = 0; pi.result = true; pi.elapsedUs = 0; pi.wantUs = 0; pi.a = tick(); q.process(); const uint64_t t = tick(); pi.b = t; S->procs[tid % MAXTHREADS].push_back(pi); for(size_t i = 0; i < b.size(); ++i) S->doneLate[b[i]].store(t, std::memory_order_relaxed); }
 			}
 		}
 		catch(const SelfDeadlock &) { violation("deadlock:self-relock", "enqueuer re-locked a mutex it owns"); }
@@ -231,6 +247,7 @@ static void runScenario(uint64_t caseNo, Rng & rng, const char * cfgName)
 	for(int e = 0; e < 3; ++e) { sc.steps[e] = 1 + (int)rng.below(8); for(int s = 0; s < 12; ++s) { sc.plan[e][s] = (uint32_t)rng.next(); if(rng.chance(1, 3)) sc.plan[e][s] &= ~3u; } }
 	sc.drainAll = true;
 	sc.enqueuerProcesses = rng.chance(1, 3);
+	sc.throwing = rng.chance(1, 3);
 	if(sc.enqueuerProcesses) sc.enqueuers = 2;
 	pickWindow(rng);
 	// template aimed at the window of the statement: a waiter re-enters wait() (after draining a plain enqueue) while the
@@ -306,7 +323,7 @@ static void runScenario(uint64_t caseNo, Rng & rng, const char * cfgName)
 
 	std::string desc = std::string("config ") + cfgName + ": waiters=" + num(sc.waiters) + " (";
 	for(int w = 0; w < sc.waiters; ++w) desc += std::string(w ? "," : "") + (sc.waitKind[w] == 0 ? "wait" : sc.waitKind[w] == 1 ? "waitFor(long)" : "waitFor(" + num(sc.shortMs[w]) + "ms)");
-	desc += ") enqueuers=" + num(sc.enqueuers) + (sc.enqueuerProcesses ? " (enqueuers also call process())" : "") + (sc.poller == 1 ? " +poller(processIf declining all)" : sc.poller == 2 ? " +poller(processUntil stopping at once)" : "") + " sched.mode=" + num(sd.mode.load()) + " tag=" + (sd.mode.load() == 2 ? tags().name[sd.tag.load()] : "-") + " role=" + num(sd.role.load())
+	desc += ") enqueuers=" + num(sc.enqueuers) + (sc.enqueuerProcesses ? " (enqueuers also call process())" : "") + (sc.throwing ? " (listeners fail now and then inside processOne)" : "") + (sc.poller == 1 ? " +poller(processIf declining all)" : sc.poller == 2 ? " +poller(processUntil stopping at once)" : "") + " sched.mode=" + num(sd.mode.load()) + " tag=" + (sd.mode.load() == 2 ? tags().name[sd.tag.load()] : "-") + " role=" + num(sd.role.load())
 		+ " nth=" + num(sd.nth.load()) + " delayUs=" + num(sd.delayUs.load());
 	oplog(desc);
 	for(int e = 0; e < sc.enqueuers; ++e) {
@@ -387,12 +404,15 @@ static void runScenario(uint64_t caseNo, Rng & rng, const char * cfgName)
 		count("cv.notifies", cv.notifies.load());
 		count("cv.notifies_without_waiter", cv.notifiesWithoutWaiter.load());
 		count("cv.parks", cv.parks.load());
+		count("listener_failures_through_processOne", (uint64_t)S->listenerFailures.load());
 
 		// (b) a wait() during whose entire duration a DisableQueueNotify object was alive must not return
 		// (c) a wait()/waitFor()==true must overlap a moment at which some event could be pending
 		if(kTicks && ! lost) {
 			std::vector<Interval> dq;
 			for(int t = 0; t < MAXTHREADS; ++t) dq.insert(dq.end(), S->dqns[t].begin(), S->dqns[t].end());
+			std::vector<Interval> pr;
+			for(int t = 0; t < MAXTHREADS; ++t) pr.insert(pr.end(), S->procs[t].begin(), S->procs[t].end());
 			uint64_t nw = 0, overlapped = 0;
 			for(int t = 0; t < MAXTHREADS && ! caseHasViolation(); ++t) for(size_t i = 0; i < S->waits[t].size(); ++i) {
 				const Interval & w = S->waits[t][i];
@@ -408,12 +428,19 @@ static void runScenario(uint64_t caseNo, Rng & rng, const char * cfgName)
 				if(caseHasViolation()) break;
 				// wait()/waitFor()==true "only after observing a non-empty queue": some enqueue must at least have begun before the call returned
 				// (a processing call in progress also makes the queue non-empty, so nothing stronger can be demanded)
-				bool possible = false;
+				// and the processing call that consumed it must not have returned before the wait began (then neither the event nor the
+				// "in dispatch" state it stands for existed at any moment of the call)
+				bool possible = false, begun = false;
 				for(int e = 0; e < MAXEV && ! possible; ++e) {
 					const uint64_t es = S->enqStart[e].load(std::memory_order_relaxed);
-					if(es != 0 && es < w.b) possible = true;
+					if(es != 0 && es < w.b) { begun = true; if(S->doneLate[e].load(std::memory_order_relaxed) > w.a) possible = true; }
 				}
-				if(! possible) { violation("wait:returned-before-any-enqueue-began", "wait/waitFor [" + unum(w.a) + "," + unum(w.b) + "] returned true although no enqueue had even begun before it returned"); break; }
+				if(! begun) { violation("wait:returned-before-any-enqueue-began", "wait/waitFor [" + unum(w.a) + "," + unum(w.b) + "] returned true although no enqueue had even begun before it returned"); break; }
+				// a processing call in progress counts as "in dispatch" even when it finds nothing to take (it raises the counter first):
+				// any processing call overlapping the wait explains the return; with a poller thread there always is one
+				if(! possible && sc.poller) possible = true;
+				for(size_t k = 0; k < pr.size() && ! possible; ++k) if(pr[k].a < w.b && pr[k].b > w.a) possible = true;
+				if(! possible) { violation("wait:returned-although-nothing-was-pending-or-in-dispatch-during-the-call", "wait/waitFor [" + unum(w.a) + "," + unum(w.b) + "] returned true, but every event enqueued before it returned had been consumed (its processing call had returned) before the wait began, and no processing call overlapped the wait"); break; }
 			}
 			count("waits_checked", nw);
 			count("wait_dqn_overlaps", overlapped);
